@@ -117,7 +117,7 @@ const nIntf = 3
 // stream nonempty: cases per run (each costs about a dozen runs of drc)
 const neCap = 1500
 
-var neRuns, neRunsL int
+var neRuns, neRunsL, neRunsI int
 
 func aclName(n int) string { return fmt.Sprintf("A%d", n) }
 
@@ -2064,6 +2064,10 @@ func runC18(ctx *Ctx) *Result {
 		if c.Dev == "asa" && o.Err == "" && len(o.Odd) == 0 && len(vs) == 0 && (neRuns < neCap || ctx.Replay != "") {
 			neRuns++
 			runNonEmptyASA(c, safe6, res)
+		}
+		if c.Dev == "ios" && o.Err == "" && len(o.Odd) == 0 && len(vs) == 0 && (neRunsI < neCap || ctx.Replay != "") {
+			neRunsI++
+			runNonEmptyIOS(c, res)
 		}
 		if c.Dev == "linux" && o.Err == "" && len(o.Odd) == 0 && len(vs) == 0 && (neRunsL < neCap || ctx.Replay != "") {
 			neRunsL++
